@@ -14,6 +14,7 @@ from . import common as T
 from ..core import TranslationError
 
 REL = "mouette/mesh/subdivision.py"
+LAST_SOURCE_SHA = {}
 
 
 # ---------------------------------------------------------------------- tiny expression translators
@@ -876,7 +877,11 @@ def gen():
     missing = [k for k in ORDER if k not in D]
     if missing or set(D) - set(ORDER):
         raise TranslationError("%s: extractor bookkeeping mismatch: %s / %s" % (REL, missing, sorted(set(D) - set(ORDER))))
-    out = T.header("C13: tuples, keys, point formulas, arity tests and loop counts of mouette/mesh/subdivision.py", parts)
+    # the source hashes go to the evidence (LAST_SOURCE_SHA), not into Gen.v: a rewrite of the source that leaves every
+    # generated definition unchanged then leaves Gen.v byte-identical and nothing is rebuilt
+    global LAST_SOURCE_SHA
+    LAST_SOURCE_SHA = dict(parts)
+    out = T.header("C13: tuples, keys, point formulas, arity tests and loop counts of mouette/mesh/subdivision.py", [])
     out += """From Coq Require Import ZArith List Bool.
 Require Import MV.Lib.Base MV.C13.Defs.
 Import ListNotations.
